@@ -366,7 +366,88 @@ def onestep_cases(bound, typed_bound, shard_i, nshards, *, invalid=True):
                         yield {**base, "opd": opd}
 
 
+class _Lbl:
+    """data object whose natural order (`__lt__`, by number) differs from the order of its display name"""
+
+    def __init__(self, num):
+        self.num = num
+
+    def __str__(self):
+        return f"item-{self.num}"
+
+    def __lt__(self, other):
+        return self.num < other.num
+
+    def __repr__(self):
+        return f"_Lbl({self.num})"
+
+
+def run_sortmix(case, res):
+    """sort() / sort_children() with the default key order every level by the node *name* (the string form of the data):
+    trees whose levels hold data of different types (strings above, numbers or objects below, and the other way round)."""
+    from nutree import Tree
+    from nutree.typed_tree import TypedTree
+
+    rng = rng_for(case["seed"], "c04-sortmix")
+    typed = case.get("typed", False)
+    t = (TypedTree if typed else Tree)("t")
+    kw = (lambda: {"kind": rng.choice(["ka", "kb"])}) if typed else (lambda: {})
+    pools = [lambda: rng.sample(["b", "a", "c", "B", "10", "9"], 4), lambda: rng.sample([9, 10, 100, 1, 25, 2], 4),
+             lambda: [_Lbl(x) for x in rng.sample([9, 10, 100, 1, 25], 4)], lambda: rng.sample([1.5, 10.25, 9.0, 100.0], 3)]
+    order = rng.sample(range(len(pools)), 3)
+    bad = []
+    try:
+        level = [t]
+        for depth, pi in enumerate(order):
+            nxt = []
+            for h in level[:3]:
+                for d in pools[pi]():
+                    nxt.append(h.add(d, **kw()))
+            level = nxt
+
+        def snapshot(h):
+            return [(id(c), snapshot(c)) for c in h.children]
+
+        def expect_sorted(h, deep, reverse, top=True):
+            kids = list(h.children)
+            names = [gen.expected_name(c) for c in kids]
+            if (top or deep) and names != sorted(names, reverse=reverse):
+                bad.append(f"children of {h!r} are not sorted by name (reverse={reverse}): {names}")
+            if deep:
+                for c in kids:
+                    expect_sorted(c, deep, reverse, False)
+
+        deep = case["deep"]
+        reverse = case["reverse"]
+        start = t if case["start"] == "tree" else rng.choice(list(t.children))
+        before_all = sorted(id(n) for n in t)
+        untouched = None if deep else [snapshot(c) for c in start.children]
+        if start is t:
+            t.sort(reverse=reverse, **({} if deep else {"deep": False}))
+        else:
+            start.sort_children(reverse=reverse, deep=deep)
+        eff_deep = deep
+        expect_sorted(start, eff_deep, reverse)
+        if sorted(id(n) for n in t) != before_all:
+            bad.append("sort changed the set of nodes")
+        if untouched is not None and sorted(map(repr, untouched)) != sorted(repr(snapshot(c)) for c in start.children):
+            bad.append("a sort that is not deep re-ordered a deeper level")
+        res.count("sortmix_cases")
+        res.case(case, nontrivial=True)
+    except Exception:
+        from ..core import exc_in_library, short_tb
+
+        if not exc_in_library():
+            res.inconc("sortmix harness error: " + short_tb())
+            return
+        bad.append("sort with the default key raised: " + short_tb(4))
+    if bad:
+        res.violation(case, "[C04:model_mismatch] " + "; ".join(bad[:2])[:1500])
+
+
 def run_case(case, res):
+    if case.get("kind") == "sortmix":
+        return run_sortmix(case, res)
     if case.get("kind") == "onestep":
         return run_onestep(case, res, own_prop=OWN)
     if case.get("kind") == "twostep":
@@ -386,6 +467,7 @@ def shards(tier, seed):
              "budget_s": 900 if tier == "quick" else 5000} for i in range(NSHARDS)]
     out += [{"name": f"hist{i}", "kind": "hist", "i": i, "count": 150 if tier == "quick" else 6000,
              "budget_s": 100 if tier == "quick" else 1500} for i in range(NSHARDS)]
+    out.append({"name": "sortmix", "kind": "sortmix", "i": 0, "count": 120 if tier == "quick" else 6000, "budget_s": 100 if tier == "quick" else 900})
     return out
 
 
@@ -398,6 +480,14 @@ def gen_hist_cases(spec):
 
 
 def run_shard(spec, res):
+    if spec["kind"] == "sortmix":
+        rng = rng_for(spec["seed"], "c04-sortmix-shard")
+        for j in range(spec["count"]):
+            run_case({"kind": "sortmix", "seed": rng.randrange(10**9), "deep": j % 3 != 0, "reverse": j % 2 == 1, "start": "tree" if j % 4 else "node",
+                      "typed": j % 5 == 0}, res)
+            if res.expired():
+                break
+        return
     if spec["kind"] == "one":
         for case in onestep_cases(spec["bound"], spec["typed_bound"], spec["i"], NSHARDS):
             run_case(case, res)
